@@ -1535,7 +1535,9 @@ class MacroFunction(Macro):
 
         if self.has_strcat:
             res_tokens = []
-            last_cat = False
+            # final[i] is True when res_tokens[i] is the result of # or ##;
+            # such a token is not substituted again, whatever its spelling
+            final = []
             idx = 0
 
             while idx < len(self.replacement):
@@ -1543,7 +1545,7 @@ class MacroFunction(Macro):
                 if tok.token == "##":
                     last = res_tokens.pop()
                     prev_white = last.prev_white
-                    if not last_cat:
+                    if not final.pop():
                         try:
                             argidx = self.args.index(last.token)
                             last = input_args[argidx][0]  # Unexpanded arg
@@ -1572,18 +1574,20 @@ class MacroFunction(Macro):
                             cp.prev_white = prev_white
                             toadd[0] = cp
                         res_tokens.extend(toadd)
+                        final.extend([True] * len(toadd))
                     else:
                         # An empty argument next to ## leaves the other
                         # operand unchanged
                         res_tokens.extend(last)
                         res_tokens.extend(nexttok)
+                        final.extend([True] * (len(last) + len(nexttok)))
                         if len(last) == 0 and len(nexttok) == 0:
                             # Both operands are empty: the result is a
                             # placemarker, the left operand of a following ##
                             res_tokens.append(
                                 Identifier("EXPANSION", -1, prev_white, ""),
                             )
-                    last_cat = True
+                            final.append(True)
                 elif tok.token == "#":
                     prev_white = tok.prev_white
                     idx += 1
@@ -1601,22 +1605,28 @@ class MacroFunction(Macro):
                         )
                     tok = Lexer.stringify(tok)
                     tok.prev_white = prev_white
-                    last_cat = True
                     res_tokens.append(tok)
+                    final.append(True)
                 else:
-                    last_cat = False
                     res_tokens.append(tok)
+                    final.append(False)
                 idx += 1
         else:
             res_tokens = copy(self.replacement)
+            final = [False] * len(res_tokens)
 
         # Substitute each occurrence of an argument in the replacement
         substituted_tokens = []
-        for token in res_tokens:
+        for token, done in zip(res_tokens, final):
             substitution = []
 
             # Placemarkers left by ## disappear
             if isinstance(token, Identifier) and token.token == "":
+                continue
+
+            # Results of # and ## are not parameters
+            if done:
+                substituted_tokens.append(token)
                 continue
 
             # If a token matches an argument, it is substituted;
